@@ -22,6 +22,7 @@ import (
 	"github.com/relab/hotstuff/core"
 	"github.com/relab/hotstuff/core/eventloop"
 	"github.com/relab/hotstuff/internal/proto/clientpb"
+	"github.com/relab/hotstuff/internal/tree"
 	"github.com/relab/hotstuff/protocol"
 	"github.com/relab/hotstuff/protocol/comm"
 	"github.com/relab/hotstuff/protocol/consensus"
@@ -50,6 +51,7 @@ type Config struct {
 	ActorReuseCmds bool // every other block of the actor re-proposes the commands of an earlier block
 	ActorAuto bool // the actor behaves honestly by default (votes, collects, proposes); scripted actions are the deviations
 	ByView  []ViewSpec // optional Twins-style scenario: partitions (and leader) chosen by the SENDER's view, messages dropped at send time
+	KauriTree bool // the replicas' configurations carry a Kauri tree (branch factor 2, default positions); only the server's receive path looks at it here
 }
 
 // ViewSpec is one view of a Twins-style scenario.
@@ -297,6 +299,9 @@ func (cl *Cluster) wire(st *Stack) error {
 	}
 	if cl.Cfg.Cache > 0 {
 		opts = append(opts, core.WithCache(uint(cl.Cfg.Cache)))
+	}
+	if cl.Cfg.KauriTree {
+		opts = append(opts, core.WithKauriTree(tree.NewSimple(st.ID, 2, tree.DefaultTreePos(cl.Cfg.N))))
 	}
 	st.Cfg = core.NewRuntimeConfig(st.ID, cl.keys[st.ID], opts...)
 	lg := kit.Logger(fmt.Sprintf("s%d", st.Idx))
